@@ -321,8 +321,8 @@ def same_card(ctx, v, ca, cb, uf):
             a, b = sorted([next(iter(fa)), next(iter(fb))])
             # '=X.extension_degree' vs 'len(X.g_base_vec)': invariant of the library's Pedersen-generator constructor
             if a.startswith('=') and a.endswith('.extension_degree') and b == 'len(%s.g_base_vec)' % a[1:-len('.extension_degree')]:
-                if pedersen_invariant(ctx):
-                    return (True, 'lengths %s and %s are equal by the invariant of create_pedersen_gens_with_extension_degree (|g_base_vec| == extension degree)' % (a, b))
+                if pedersen_guard(ctx, v, a[1:], b):
+                    return (True, 'lengths %s and %s are equal by a guard of the consistency function (|g_base_vec| == extension degree, or the batch is refused)' % (a, b))
         return (fa == fb, 'lengths %s and %s (modulo guard equalities)' % (sorted(fa), sorted(fb)))
     unit, ext = (ca, cb) if ca[0] == 'unit' else (cb, ca)
     # push inside one more loop than the extend; that loop must be a whole loop over C with |C| == |ext|
@@ -353,6 +353,20 @@ def same_card(ctx, v, ca, cb, uf):
                 if x and y and a.endswith('.%s)' % x) and b.endswith('.%s)' % y) and a[:-len(x) - 2] == b[:-len(y) - 2]:
                     return (True, 'push once per element of %s; extend adds %s; equal by the RangeStatement::init invariant |%s| == |%s|' % (a, b, x, y))
     return (False, 'push once per element of %s but extend adds %s' % (sorted(fa), sorted(fb)))
+
+
+def pedersen_guard(ctx, v, ext, glen):
+    """the batch is refused unless `glen` (= len(X.g_base_vec)) equals `ext` (= X.extension_degree): an accept-atom of the verifier core
+    or of the consistency function it calls first.  (PedersenGens has public fields: that its only library constructor builds the
+    vector with extension-degree many elements is not an invariant of the type.)"""
+    from .common import guard_table
+    for r in guard_table(ctx, v, deep=True):
+        if r['eff'] == 'bypass' or any(c[0] != 'succ' for c in r['ctx']):
+            continue
+        for a in r['atoms']:
+            if a[0] == 'cmp' and a[1] == 'Eq' and {a[2], a[3]} == {ext, glen}:
+                return True
+    return False
 
 
 def pedersen_invariant(ctx):
